@@ -496,6 +496,13 @@ def case_rejection(ctx, rng):
         'four-samples': lambda: pe.Obs([x[:4]], ['A']),
         'four-samples-second-replica': lambda: pe.Obs([x, y[:3]], ['A|r1', 'A|r2']),
         'several-ensembles': lambda: pe.Obs([x, y], ['A|r1', 'B|r1']),
+        # ensemble = the text before '|': names that merely share a prefix are different ensembles
+        'several-ensembles-prefix-bare': lambda: pe.Obs([x, y], ['A', 'A1']),
+        'several-ensembles-prefix-bare-reversed': lambda: pe.Obs([x, y], ['A1', 'A']),
+        'several-ensembles-prefix-replica': lambda: pe.Obs([x, y], ['ens|r1', 'ens2|r1']),
+        'several-ensembles-prefix-mixed': lambda: pe.Obs([x, y, x], ['AB|r1', 'AB|r2', 'ABC|r1']),
+        'several-ensembles-prefix-merge': lambda: pe.merge_obs([pe.Obs([x], ['A']), pe.Obs([y], ['A1'])]),
+        'several-ensembles-prefix-merge-replica': lambda: pe.merge_obs([pe.Obs([x], ['L32|r1']), pe.Obs([y], ['L32T64|r0'])]),
         'separator-in-cov-name': lambda: pe.cov_Obs(1.0, 0.1, 'cv|x'),
         'asymmetric-cov': lambda: pe.cov_Obs([1.0, 2.0], [[1.0, 0.3], [0.1, 1.0]], 'cvR'),
         'indefinite-cov': lambda: pe.cov_Obs([1.0, 2.0], [[1.0, 2.0], [2.0, 1.0]], 'cvR'),
